@@ -240,7 +240,11 @@ CLAIMS.update({
               'agree on every program. Character literals (BB.Props.C11Char): for every ASCII character c other than the backslash the line K = \'c\' lexes to three '
               'tokens, parses to the definition of K and evaluates to the code point of c - comma, #, parentheses, blank and the quote included '
               '(const_char; quoted_operand for any operand position; the escapes \'\\\\\' \'\\n\' \'\\x41\'; a lone backslash stays refused); the harness '
-              'assembles every printable character literal, alone, with a comment behind it and as an immediate / data value (repaired defect, fix 0465487).'),
+              'assembles every printable character literal, alone, with a comment behind it and as an immediate / data value (repaired defect, fix 0465487). '
+              'Whole programs (BB.Props.C11 in C11Program.lean): imm_congruence / const_subst_same_result - two item lists that differ only in immediates which '
+              'evaluate alike wherever the constants table has K = v give the same assembleItems result (bytes, labels, constants, errors; both modes); '
+              'text_congruence lifts it to two source texts; arith_subst: replacing K inside an expression string by the literal of v is such a rewriting; '
+              'alias_same_result: the same for a constant used as a register; branch_target_name_vs_value proves the documented exception (a name as a transfer target is a reference).'),
         note=TB + ' Python-only expression syntax beyond the documented operators is unsupported (counted, never compared). A name as a branch/jal target is a reference, not a literal offset (documented operand meaning).',
         ref='DESIGN.md §5 C11'),
     'C13': dict(
@@ -251,7 +255,10 @@ CLAIMS.update({
               'item; every register spelling (number, xN, ABI alias, hex/binary/octal numeral) names its register; the two base+offset '
               'spellings of all 11 mnemonics parse to the same item from source text. Tie + oracle: each generated program is re-spelled 5-8 '
               'times, every line and operand independently, and the real assembler\'s bytes and ordered label tables must be pairwise equal in '
-              'both modes; the Lean model must agree on the variants.'),
+              'both modes; the Lean model must agree on the variants. Whole programs (C13Program.lean): spelling_same_result - two ASCII source texts whose lines '
+              'are related by any interleaving of the documented freedoms (separators / indentation / trailing comment, off(base) vs flat form, register spellings, '
+              'blank and comment-only lines inserted or deleted) give the same bytes, labels and constants or both fail, both modes, any filesystem; '
+              'assembleItems_regSame: no pass can tell two spellings of a register apart.'),
         note=TB + ' ASCII input; Unicode whitespace is outside the documented freedoms.',
         ref='DESIGN.md §5 C13'),
 })
@@ -313,8 +320,10 @@ CLAIMS.update({
               'position x include depth 0-3 x both modes, faults on instructions, pseudo-instructions, data directives, explicit c.* '
               'mnemonics and lines a compression rule inspects, escapes unicode_escape rejects - are assembled by the real code; exception '
               'type, .line.file and .line.number must be the planted line\'s, ~10 % also through the CLI; the Lean model must reply the '
-              'same error location.'),
-        note=TB + ' Wrong operand counts, unknown mnemonics / pack formats, align 0 and include cycles are not among the listed classes and are not planted. For a duplicated label either definition\'s line satisfies the oracle; the model demands the second. The whole-pipeline per-class statement is kept as a Prop; proved per detecting pass.',
+              'same error location. Whole programs (C15Program.lean): fault_reported_at_its_line - one faulty item of a listed class anywhere between good items '
+              '(any labels, data, aligns, instructions, pseudo-instructions that assemble in every context) makes assembleItems fail with the assembler\'s error '
+              'carrying that item\'s line, with and without compression; one instance per class; first_fault_wins_*: which of two faults is reported.'),
+        note=TB + ' Wrong operand counts, unknown mnemonics / pack formats, align 0 and include cycles are not among the listed classes and are not planted. For a duplicated label either definition\'s line satisfies the oracle; the model demands the second. The whole-pipeline statement is proved for one fault among context-independent good items (GoodItem); surroundings whose own success depends on the layout are covered by the planted-fault runs only.',
         ref='DESIGN.md §5 C15'),
     'C16': dict(
         category='translation_validation',
